@@ -131,6 +131,15 @@ var zzGraphCur *zzGraph
 // context is already cancelled does not start, one whose context is cancelled
 // while it runs is killed.
 func zzProbe(ctx context.Context, opts *execext.RunCommandOptions) error {
+	if strings.HasPrefix(opts.Command, "pre ") { // a precondition command
+		if err := ctx.Err(); err != nil {
+			return err
+		}
+		if zzPreFail {
+			return interp.NewExitStatus(1)
+		}
+		return nil
+	}
 	id := strings.TrimPrefix(opts.Command, "probe ")
 	if k := strings.Index(id, "#"); k >= 0 {
 		id = id[:k] // deferred commands carry "#EXIT=.." after the id
@@ -233,8 +242,23 @@ type zzRunOpts struct {
 	AssumeYes   bool
 }
 
+func zzQuietLogger() *logger.Logger { return &logger.Logger{Stdout: io.Discard, Stderr: io.Discard} }
+
+var zzPreFail bool
+
+func zzPreText() string {
+	if zz.Native() {
+		return "exit 1"
+	}
+	return "pre G"
+}
+
 // zzExec runs the calls on a fresh Executor over the graph and returns the trace.
 func zzExec(g *zzGraph, tf *ast.Taskfile, o zzRunOpts, roots ...string) ([]zz.Event, error) {
+	return zzExecOpts(g, tf, o, false, roots...)
+}
+
+func zzExecOpts(g *zzGraph, tf *ast.Taskfile, o zzRunOpts, terminal bool, roots ...string) ([]zz.Event, error) {
 	zzGraphCur = g
 	zzRun = zzProbe
 	zzEnviron = []string{"HOME=/h"}
@@ -244,7 +268,7 @@ func zzExec(g *zzGraph, tf *ast.Taskfile, o zzRunOpts, roots ...string) ([]zz.Ev
 	}
 	e := &Executor{Taskfile: tf, Concurrency: o.Concurrency, Parallel: o.Parallel, Dry: o.Dry, Force: o.Force, ForceAll: o.ForceAll,
 		AssumeYes: o.AssumeYes, Stdout: out, Stderr: io.Discard, Stdin: strings.NewReader(""), Output: output.Interleaved{}, Silent: true}
-	e.Logger = &logger.Logger{Stdout: io.Discard, Stderr: io.Discard}
+	e.Logger = &logger.Logger{Stdout: io.Discard, Stderr: io.Discard, AssumeYes: o.AssumeYes, AssumeTerm: terminal, Stdin: strings.NewReader(zzPromptLine)}
 	e.Compiler = &Compiler{Dir: "", TaskfileEnv: tf.Env, TaskfileVars: tf.Vars, Logger: e.Logger}
 	e.setupConcurrencyState()
 	var calls []*Call
